@@ -26,7 +26,7 @@ ASSUMPTIONS = [
     "tolerance (linear domain): |a-b| <= 1e-7 max(|a|,|b|) + 1e-10 S for float64 input, 1e-4 / 1e-6 for float32 input (S = largest coefficient)",
     "the DFT size is the one observed in the computer's get_truncated_response calls; if none is observed the documented rule (next power of two when padded, else the frame length) is used",
     "window samples come from a fresh WindowFunction of the configured kind (tied to closed forms by C20)",
-    "the absolute tolerance term is never below 1e-12 x (sum over bins of |DFT|^p): coefficients of a filter whose response is < 1e-12 on the whole grid are the bank's own rounding noise",
+    "the absolute tolerance term is never below 1e-12 x (sum over bins of |DFT|^p): coefficients of a filter whose response is < 1e-12 on the whole grid are the bank's own rounding noise; nor below 1e-16 x (sum of |frame samples|)^p, the rounding level of the DFT of the frame itself (matters for windows that are ~1e-17 at width 2)",
 ]
 ANCHOR_FILES = ("src/pydrobert/speech/compute.py", "src/pydrobert/speech/filters.py")
 EXHAUSTIVE_PARTS = []
